@@ -2,12 +2,14 @@
 """Validate sub-agent seeds in scratch worktrees: (a) demo passes on the pinned tree, (b) demo fails with
 the patch, (c) the existing suite still passes with the patch.  Writes /verif/seeded/_pending/<id>/validation.json."""
 import json, os, subprocess, sys, shutil, time
-P = "/verif/seeded/_pending"
+P = os.environ.get("SEED_DIR", "/verif/seeded/_pending")
 INCRATE = {"C09": ("seed_demo.rs", "src/composer/tests/soundness/seed_demo.rs", "seed_demo"),
            "C10": ("seed_demo.rs", "src/composer/tests/soundness/seed_demo.rs", "seed_demo"),
            "C14": ("seed_c14.rs", "src/composer/tests/soundness/seed_c14.rs", "seed_c14"),
-           "C20": ("seed_demo.rs", "src/commitment_scheme/kzg10/seed_demo.rs", "seed_demo")}
-RELEASE = {"C04", "C05", "C06", "C10", "C11", "C11b", "C12", "C13", "C15", "C16", "C18", "C19"}
+           "C20": ("seed_demo.rs", "src/commitment_scheme/kzg10/seed_demo.rs", "seed_demo"),
+           "C12r2": ("seed_demo.rs", "src/composer/tests/seed_demo.rs", "seed_demo"),
+           "C20r2": ("seed_demo.rs", "src/commitment_scheme/kzg10/seed_demo.rs", "seed_demo")}
+RELEASE = {"C03r2", "C05r2", "C12r2", "C13r2", "C16r2", "C20r2", "C04", "C05", "C06", "C10", "C11", "C11b", "C12", "C13", "C15", "C16", "C18", "C19"}
 THREADS = {"C18": 2, "C19": 1}
 
 def sh(cmd, cwd, env, log):
